@@ -180,6 +180,13 @@ pub fn half_second_offsets() -> Vec<f64> {
             v.push(us as f64 / 86_400_000_000.0);
             v.push(-(us as f64) / 86_400_000_000.0);
         }
+        // a fraction of a microsecond either side of the half-second mark: the rounding to
+        // microseconds decides which second is nearest
+        for f in [-0.9f64, -0.7, -0.5, -0.3, -0.1, 0.1, 0.3, 0.49, 0.5, 0.51, 0.7, 0.9, 1.3] {
+            let us = (k * 1_000_000 + 500_000) as f64 + f;
+            v.push(us / 86_400_000_000.0);
+            v.push(-us / 86_400_000_000.0);
+        }
     }
     v
 }
@@ -311,7 +318,18 @@ pub fn run(ctx: &Ctx) -> (Stats, Report) {
         seed,
         (if ctx.thorough { 32_000_000 } else { 1_600_000 }) / THREADS as u32,
         THREADS,
-        || (0u8..4, strat::raw(Kind::Ts), prop_oneof![3 => strat::any_f64(), 1 => (-400_000_000_000i64..=400_000_000_000, -3i64..=3).prop_map(|(k, d)| ((k * 1_000_000 + 500_000 + d) as f64) / 86_400_000_000.0)]),
+        || {
+            (
+                0u8..4,
+                strat::raw(Kind::Ts),
+                prop_oneof![
+                    3 => strat::any_f64(),
+                    1 => (-400_000_000_000i64..=400_000_000_000, -3i64..=3).prop_map(|(k, d)| ((k * 1_000_000 + 500_000 + d) as f64) / 86_400_000_000.0),
+                    // whole seconds + 1/2 second +- a fraction of a microsecond
+                    2 => (-4_000_000i64..=4_000_000, -2000i32..=2000).prop_map(|(k, f)| ((k * 1_000_000 + 500_000) as f64 + f as f64 / 1000.0) / 86_400_000_000.0),
+                ],
+            )
+        },
         |(which, x, f): &(u8, i128, f64), st: &mut Stats| {
             st.evaluations += 1;
             let (nt, class) = check_add_days(*which, *x, *f)?;
